@@ -207,7 +207,7 @@ func analyseLocks(c *Ctx, pkgRel, typeName string) *lockInfo {
 	sort.Slice(li.fns, func(i, j int) bool { return li.fns[i].String() < li.fns[j].String() })
 	// first pass with entry lock none; then raise entry locks of unexported methods to the
 	// minimum over their call sites and repeat
-	for iter := 0; iter < 3; iter++ {
+	for iter := 0; iter < 8; iter++ {
 		li.accesses, li.tcalls = nil, nil
 		for k := range li.callSites {
 			delete(li.callSites, k)
